@@ -15,6 +15,9 @@ REVERTS = {
 }
 
 ASSESS = {
+ "C05-r4-m2": "Swapped arguments of the push-versus-rebuild heuristic on the (min, None) hint branch of PriorityQueue::extend: a small batch on a large queue is rebuilt in O(n) instead of pushed. extend is not among the operations C05 bounds (it lists single-element operations and the bulk operations that re-establish order by construction, append, retain, iter_mut drop, conversions). Results stay correct. Not reported, not claimed.",
+ "C14-r4-m2": "Moves `size += 1` of push behind the sift-up in both queues (partial revert of D6): only visible after a caught panic in a comparison; C10's business, outside C14 as quantified.",
+ "C16-r4-m1": "`drain` computes the new size as `size - iter.len()`: identical on every consistent store; differs only after a caught panic in a retain predicate. Reported by C10 (the continuation reads out of bounds), outside C16 as quantified (fault-free histories).",
  "C11-r3-m2": "Moves `size += 1` of PriorityQueue::push back behind the sift-up (partial revert of D6): only visible after a caught panic in a comparison; reported by C10 (safety), outside C11 as quantified (well-behaved user code).",
  "C12-r3-m2": "Deserialising a sequence that repeats an item now keeps the LAST item value instead of the first. No listed property fixes which item value deserialisation keeps for a repeated item (C15 speaks of priorities, C12 of push/change_priority/push_increase/push_decrease); not a violation of C12 as stated, not reported, not claimed.",
  "C16-r3-m2": "Needs an element whose Drop panics inside clear(); Drop is not among the user callbacks the properties quantify over. Not reported, not claimed.",
@@ -55,7 +58,7 @@ for d in sorted(os.listdir(ROOT)):
         origin = f"revert of fix commit {commit} in /repo"
     else:
         prop = d.split("-")[0]
-        rnd = "third" if "-r3-" in d else ("second" if "-r2-" in d else "first")
+        rnd = "fourth" if "-r4-" in d else ("third" if "-r3-" in d else ("second" if "-r2-" in d else "first"))
         origin = f"written by a fresh sub-agent ({rnd} round) that was given only the text of {prop} and a scratch worktree"
         notes = os.path.join(p, "notes.md")
         needs = open(notes).read().strip() if os.path.exists(notes) else ""
@@ -82,7 +85,7 @@ for d in sorted(os.listdir(ROOT)):
     rows.append((d, prop, sorted(caught), sorted(machinery), sorted(ran), own_final))
 
 with open(os.path.join(ROOT, "MATRIX.md"), "w") as f:
-    f.write("# Seeded changes x quick checks\n\n`X` = the check exited 1 with a VIOLATION line and a replay that reproduced twice, in at least one of the runs recorded under `<change>/evals/`; `.` = run and silent; blank = not run against this change (the third round was run against its own property, C03 and C04 only). Entries are a lower bound: the all-checks pass was made with the harness as it was when the change arrived, later strengthening only adds detections. Column `own` = reported by the check of the property it was written against, with the FINAL harness.\nGenerated by tools/make_seeded_meta.py.\n\n")
+    f.write("# Seeded changes x quick checks\n\n`X` = the check exited 1 with a VIOLATION line and a replay that reproduced twice, in at least one of the runs recorded under `<change>/evals/`; `.` = run and silent; blank = not run against this change (the third and fourth rounds were run against their own property, C03 and C04 only). Entries are a lower bound: the all-checks pass was made with the harness as it was when the change arrived, later strengthening only adds detections. Column `own` = reported by the check of the property it was written against, with the FINAL harness.\nGenerated by tools/make_seeded_meta.py.\n\n")
     f.write("| change | for | " + " | ".join(p[1:] for p in PROPS) + " | own |\n")
     f.write("|---|---|" + "---|" * len(PROPS) + "---|\n")
     own = 0
